@@ -213,70 +213,112 @@ def r3_multi_borrow(ctx):
 
 
 def r4_holding(ctx):
+    """K6 on State::holding with the registry modelled as a chain of three scopes (which scope holds T, which holds the
+    placeholder) - every placement of T x {closure succeeds, closure fails, closure inserts its own T on top}:
+    the closure runs with T taken out of the state, afterwards T is back in exactly the scope it came from, the
+    placeholder is gone, and the closure's result is returned; an absent T is an error with nothing changed.
+    Type level: the placeholder key is a function-local type generic in T (nested holding() of other types cannot clash)."""
+    import re
+    from absint import Interp, Sym, Agg, Ref, TOP, some, NONE, ok, err, std_oracle, chain
+    from collmodel import coll_oracle, install, load
     F = ctx.facts
     fn = F.fn("mahf::state::State::holding")
     body = fn.body
-    removes = [(bb, t) for bb, t in body.calls() if t["f"].get("key") == R + "remove" and t["f"].get("gargs") == ["T"]]
-    if not ctx.check(len(removes) == 1, "C02.R4", fn.key, "take-out", "holding::<T> does not take T out with exactly one remove::<T>()", kind="undecided-shape", loc=fn.loc()):
+    # ---- the placeholder type
+    keys = {(t["f"].get("gargs") or [None])[0] for bb, t in body.calls() if t["f"].get("key", "").startswith(R)}
+    markers = sorted(k for k in keys if k and k != "T")
+    if not ctx.check(len(markers) == 1, "C02.R4", fn.key, "placeholder", "holding() does not use exactly one placeholder state type (found %s)" % markers, kind="undecided-shape", loc=fn.loc()):
         return
-    sp = try_split(body, removes[0][0])
-    if not ctx.check(sp is not None, "C02.R4", fn.key, "take-out-checked", "the take-out's Result is not `?`-checked", kind="undecided-shape", loc=fn.loc()):
-        return
-    start = sp[0]
-
-    def reinserts(b):
-        t = body.term(b)
-        return t["k"] == "call" and t["f"].get("key") == R + "insert" and t["f"].get("gargs") == ["T"]
-
-    # the placeholder: the (function-local) type inserted before the take-out, into the scope find_mut::<T>() returned
-    import re
-    mks = [(bb, t) for bb, t in body.calls() if t["f"].get("key") == R + "insert" and t["f"].get("gargs") != ["T"] and body.dominates(bb, removes[0][0])]
-    if not ctx.check(len(mks) == 1, "C02.R4", fn.key, "placeholder", "no single placeholder is left in T's scope before the take-out", kind="undecided-shape", loc=fn.loc()):
-        return
-    marker_ty = mks[0][1]["f"]["gargs"][0]
+    marker_ty = markers[0]
     generic_in_T = re.search(r"<(.*\b)?T\b.*>$", marker_ty) is not None
     ctx.check(generic_in_T and "::holding::" in marker_ty, "C02.R4", fn.key, "placeholder-per-type",
               "the placeholder type %s is not a function-local type parameterised by T: nested holding() calls for different types would share one "
-              "placeholder key and put their states back into each other's scope" % marker_ty, detail=marker_ty, loc=fn.loc(mks[0][1].get("line")))
+              "placeholder key and put their states back into each other's scope" % marker_ty, detail=marker_ty, loc=fn.loc())
+    # ---- semantics over scope placements
+    LEVELS = 3
+    bad = []
+    n = 0
+    reg_i = F.field_index("mahf::state::State", "registry")
+    nf = len(F.adt("mahf::state::State")["variants"][0]["fields"])
+    for placement in (None, 0, 1, 2):
+        for outcome in ("ok", "err", "shadow"):
+            n += 1
 
-    def is_marker(t):
-        return (t["f"].get("gargs") or [None])[0] == marker_ty
-
-    # Err exits of lookups of the function-local placeholder are excluded (see ASSUMPTIONS)
-    excluded = set()
-    for bb, t in body.calls():
-        if is_marker(t) and t["f"].get("key") in (R + "find_mut", R + "find"):
-            s2 = try_split(body, bb)
-            if s2:
-                excluded.add(s2[1])
-    path = must_pass(body, start, reinserts, excluded_blocks=excluded)
-    cls = ""
-    if path:
-        cls = "Err" if any(is_call_to(body.term(b), FROM_RESIDUAL) for b in path) else "Ok"
-    ctx.check(path is None, "C02.R4", fn.key, "put-back-on-every-return",
-              "after T is taken out (bb%d) a path returns (%s exit) without insert::<T>(): blocks %s — if the closure fails, T is lost and the placeholder stays behind"
-              % (removes[0][0], cls, path), loc=fn.loc())
-    # put back into the scope it came from: the insert target is the scope holding the placeholder, and the placeholder
-    # was inserted into the scope find_mut::<T>() returned
-    ins = [(bb, t) for bb, t in body.calls() if reinserts(bb)]
-    for bb, t in ins:
-        e = body.expr_of_op(t["args"][0])
-        fm = [x for x in subexprs(e) if x[0] == "call" and x[1] == R + "find_mut"]
-        good = len(fm) == 1 and (fm[0][3]["f"].get("gargs") or [None])[0] == marker_ty
-        ctx.check(good, "C02.R4", fn.key, "put-back-where-placeholder-is", "T is re-inserted into %s, not into the scope holding the placeholder" % expr_str(e)[:120], loc=fn.loc(t.get("line")))
-    e = body.expr_of_op(mks[0][1]["args"][0])
-    fm = [x for x in subexprs(e) if x[0] == "call" and x[1] == R + "find_mut"]
-    good = len(fm) == 1 and fm[0][3]["f"].get("gargs") == ["T"]
-    e2 = body.expr_of_op(removes[0][1]["args"][0])
-    fm2 = [x for x in subexprs(e2) if x[0] == "call" and x[1] == R + "find_mut"]
-    good = good and len(fm2) == 1 and fm2[0][3]["f"].get("gargs") == ["T"]
-    ctx.check(good, "C02.R4", fn.key, "placeholder-in-source-scope", "the placeholder is not left in the scope T is removed from (find_mut::<T>()) before the take-out", loc=fn.loc())
-
-    def rm_marker(b):
-        t = body.term(b)
-        return t["k"] == "call" and t["f"].get("key") == R + "remove" and is_marker(t)
-    path = must_pass(body, start, rm_marker, excluded_blocks=excluded)
-    ctx.check(path is None, "C02.R4", fn.key, "placeholder-removed-on-every-return", "a path returns with the placeholder left in the state: blocks %s" % path, loc=fn.loc())
+            def oracle(interp, env, f, args, t, bb, path, outcome=outcome):
+                k = f.get("key", "")
+                nm = f.get("name")
+                ga = (f.get("gargs") or [None])[0]
+                ms = interp.mstate
+                if k.startswith(R) and ga in ("T", marker_ty):
+                    which = "t" if ga == "T" else "m"
+                    holders = list(ms.get(which, ()))
+                    recv = load(interp, env, args[0]) if args else None
+                    lvl = int(recv.tag[4:]) if isinstance(recv, Sym) and recv.tag.startswith("reg:") else None
+                    if lvl is None:
+                        return TOP
+                    # a registry symbol `reg:L` stands for scope L and everything below it (its parents): L = 0 is the top
+                    visible = [h for h in holders if h >= lvl]
+                    if nm in ("find_mut", "find"):
+                        return ok(Sym("reg:%d" % min(visible))) if visible else err(Sym("StateError::NotFound"))
+                    if nm in ("contains", "has"):
+                        return bool(visible)
+                    if nm == "contains_at_top":
+                        return lvl in holders
+                    if nm == "insert":
+                        old = lvl in holders
+                        if not old:
+                            holders.append(lvl)
+                        ms[which] = tuple(sorted(holders))
+                        ms["log"] = ms.get("log", ()) + (("insert", which, lvl),)
+                        return some(Sym("displaced")) if old else NONE
+                    if nm in ("remove", "take", "try_remove"):
+                        if not visible:
+                            return err(Sym("StateError::NotFound")) if nm != "take" else "DIVERGE"
+                        holders.remove(min(visible))
+                        ms[which] = tuple(sorted(holders))
+                        ms["log"] = ms.get("log", ()) + (("remove", which, min(visible)),)
+                        v = Sym("the-T" if which == "t" else "the-marker")
+                        return v if nm == "take" else ok(v)
+                    return TOP
+                if f.get("name") in ("call_once", "call") and args and isinstance(load(interp, env, args[0]), Sym) and load(interp, env, args[0]).tag == "user-closure":
+                    ms["closure_saw"] = (tuple(ms.get("t", ())), tuple(ms.get("m", ())))
+                    if outcome == "shadow":
+                        ms["t"] = tuple(sorted(set(ms.get("t", ())) | {0}))       # the closure inserts its own T into the top scope
+                    return err(Sym("closure-error")) if outcome == "err" else ok(Agg("tuple", None, None, []))
+                return TOP
+            vals = [Sym("phantom")] * nf
+            vals[reg_i] = Sym("reg:0")
+            home = 11001
+            inl = lambda k: k.startswith("mahf::state::State::") or k.startswith("<mahf::state::State")
+            it = install(Interp(body, chain(oracle, coll_oracle, std_oracle), [Ref(home, [], frame="root"), Sym("user-closure")], facts=F, inline=inl, max_visits=8))
+            it.extra_env = {home: Agg("adt", "mahf::state::State", "State", vals)}
+            it.init_state = {"t": (placement,) if placement is not None else (), "m": ()}
+            where = ("nowhere" if placement is None else ["the top scope", "the parent scope", "the grandparent scope"][placement], {"ok": "succeeds", "err": "fails", "shadow": "succeeds after inserting its own T on top"}[outcome])
+            paths = it.run()
+            if len(paths) != 1:
+                bad.append(where + ("is not decided (%d paths: %s)" % (len(paths), sorted({p.end for p in paths})),))
+                continue
+            p0 = paths[0]
+            ms = p0.mstate
+            res = p0.ret.variant if isinstance(p0.ret, Agg) else p0.end
+            if placement is None:
+                if res != "Err" or ms.get("t") or ms.get("m") or "closure_saw" in ms:
+                    bad.append(where + ("returns %s with T in %s / placeholder in %s (an absent T must be an error that changes nothing)" % (res, ms.get("t"), ms.get("m")),))
+                continue
+            saw = ms.get("closure_saw")
+            if saw is None:
+                bad.append(where + ("never runs the closure",))
+                continue
+            if placement in saw[0]:
+                bad.append(where + ("runs the closure while T is still in the state",))
+            want_t = {placement} | ({0} if outcome == "shadow" else set())
+            if set(ms.get("t", ())) != want_t:
+                bad.append(where + ("leaves T in scopes %s, expected %s (back where it came from)" % (sorted(ms.get("t", ())), sorted(want_t)),))
+            elif ms.get("m"):
+                bad.append(where + ("leaves the placeholder behind in scope(s) %s" % (list(ms.get("m")),),))
+            elif res != ("Err" if outcome == "err" else "Ok"):
+                bad.append(where + ("returns %s" % res,))
+    ctx.check(not bad, "C02.R4", fn.key, "put-back-where-it-came-from", "T held in %s, closure %s: holding() %s" % (bad[0] if bad else ("", "", "")), detail="%d scenarios" % n, loc=fn.loc())
 
 
 def run(ctx):
